@@ -20,15 +20,17 @@ EXTENDS Naturals, Sequences, FiniteSets
 
 Streams == {0, 1}       \* reusable streams of the connection that the scenarios address
 
-VARIABLES sc,       \* the scenario: [fs, buf, cnt, frames]
+VARIABLES sc,       \* the scenario: [fs, buf, cnt, frames, rd] (rd = bytes the application reads from stream 0 before it stalls)
           i,        \* index of the frame being processed
           hdr,      \* the header (and length) of frame i has been pulled
           rem,      \* payload bytes of frame i not yet pulled
           held,     \* [stream -> frames waiting in that stream's queue, oldest first: [k, sz] (sz = 0 for a control frame)]
           est,      \* [stream -> its task has taken an OPEN frame and offers the transient stream to the application]
           wire,     \* bytes pulled from the transport so far
-          consumed  \* number of Consume steps so far
-bvars == <<sc, i, hdr, rem, held, est, wire, consumed>>
+          consumed, \* number of Consume steps so far
+          part,     \* bytes of the oldest DATA frame of stream 0 the application has already read (the frame keeps ALL its permits until its last byte is read)
+          readB     \* payload bytes the application has read from stream 0
+bvars == <<sc, i, hdr, rem, held, est, wire, consumed, part, readB>>
 
 RECURSIVE Sum(_)
 Sum(s) == IF s = <<>> THEN 0 ELSE Head(s).sz + Sum(Tail(s))
@@ -38,7 +40,7 @@ Count == Len(held[0]) + Len(held[1])
 Min2(a, b) == IF a < b THEN a ELSE b
 Cur == sc.frames[i]
 
-InitWith(S) == sc \in S /\ i = 1 /\ hdr = FALSE /\ rem = 0 /\ held = [s \in Streams |-> <<>>] /\ est = [s \in Streams |-> FALSE] /\ wire = 0 /\ consumed = 0
+InitWith(S) == sc \in S /\ i = 1 /\ hdr = FALSE /\ rem = 0 /\ held = [s \in Streams |-> <<>>] /\ est = [s \in Streams |-> FALSE] /\ wire = 0 /\ consumed = 0 /\ part = 0 /\ readB = 0
 
 PullHeader ==
     /\ i <= Len(sc.frames) /\ ~hdr
@@ -46,12 +48,12 @@ PullHeader ==
     /\ IF Cur.k = "data" /\ Cur.len = 0
        THEN i' = i + 1 /\ hdr' = FALSE /\ rem' = 0            \* an empty DATA frame carries nothing
        ELSE i' = i /\ hdr' = TRUE /\ rem' = (IF Cur.k = "data" THEN Cur.len ELSE 0)
-    /\ UNCHANGED <<sc, held, est, consumed>>
+    /\ UNCHANGED <<sc, held, est, consumed, part, readB>>
 Control ==
     /\ hdr /\ Cur.k # "data"
     /\ Count < sc.cnt                                           \* one COUNT permit
     /\ held' = [held EXCEPT ![Cur.s] = Append(@, [k |-> Cur.k, sz |-> 0])] /\ i' = i + 1 /\ hdr' = FALSE
-    /\ UNCHANGED <<sc, rem, est, wire, consumed>>
+    /\ UNCHANGED <<sc, rem, est, wire, consumed, part, readB>>
 Chunk ==
     /\ hdr /\ Cur.k = "data" /\ rem > 0
     /\ LET size == Min2(rem, sc.fs) IN
@@ -59,21 +61,28 @@ Chunk ==
        /\ held' = [held EXCEPT ![Cur.s] = Append(@, [k |-> "data", sz |-> size])] /\ wire' = wire + size      \* ... then the bytes are pulled
        /\ rem' = rem - size
        /\ IF rem - size = 0 THEN i' = i + 1 /\ hdr' = FALSE ELSE i' = i /\ hdr' = TRUE
-    /\ UNCHANGED <<sc, est, consumed>>
+    /\ UNCHANGED <<sc, est, consumed, part, readB>>
 (* the stream's own task (reusable_stream.rs:166-170, recv_open) needs no help of the application while no transient stream is   *)
 (* established: it DISCARDS whatever comes first - releasing its permits - until it finds an OPEN frame, which starts a transient  *)
 (* stream; everything after that waits for the application                                                                        *)
 TakeOpen == \E s \in Streams :
     /\ ~est[s] /\ held[s] # <<>>
     /\ held' = [held EXCEPT ![s] = Tail(@)] /\ est' = [est EXCEPT ![s] = (Head(held[s]).k = "open")]
-    /\ UNCHANGED <<sc, i, hdr, rem, wire, consumed>>
+    /\ UNCHANGED <<sc, i, hdr, rem, wire, consumed, part, readB>>
 (* the application reads (or drops) the oldest frame; a CLOSE ends the transient stream *)
 Consume == \E s \in Streams :
     /\ est[s] /\ held[s] # <<>> /\ held' = [held EXCEPT ![s] = Tail(@)] /\ consumed' = consumed + 1
     /\ est' = [est EXCEPT ![s] = (Head(held[s]).k # "close")]
+    /\ part' = IF s = 0 THEN 0 ELSE part
+    /\ readB' = IF s = 0 THEN readB + (Head(held[0]).sz - part) ELSE readB
     /\ UNCHANGED <<sc, i, hdr, rem, wire>>
+(* a read that takes only PART of the oldest DATA frame (transient_stream.rs:24-62): the rest stays cached together with ALL the frame's permits *)
+ReadPart(n) ==
+    /\ est[0] /\ held[0] # <<>> /\ Head(held[0]).k = "data" /\ n > 0 /\ part + n < Head(held[0]).sz
+    /\ part' = part + n /\ readB' = readB + n
+    /\ UNCHANGED <<sc, i, hdr, rem, held, est, wire, consumed>>
 Pull == PullHeader \/ Control \/ Chunk \/ TakeOpen
-BNext == Pull \/ Consume
+BNext == Pull \/ Consume \/ \E n \in 1..(sc.rd - readB) : ReadPart(n)
 
 (* Safety *)
 Bounded == Payload <= sc.buf /\ Count <= sc.cnt
